@@ -188,8 +188,13 @@ static void run_dispatch_nomaster(const json& sc, boost::mpi::communicator& worl
     for (int r = 0; r < R; ++r) {
         std::vector<CountingJob> parts(J);
         std::vector<pMPI::JobId> order(J);
-        for (int j = 0; j < J; ++j) { parts[j].id = j; parts[j].complexity = sc["complexity"][r][j].get<int>(); parts[j].usec = sc["usec"][r][j].get<int>(); order[j] = j; }
+        // "ids": the job ids handed to the list constructor (any distinct ids, e.g. a sparse selection); default 0..J-1
+        std::vector<int> ids(J);
+        std::map<int, int> pos;
+        for (int j = 0; j < J; ++j) { ids[j] = (joblist && sc.count("ids")) ? sc["ids"][j].get<int>() : j; pos[ids[j]] = j; }
+        for (int j = 0; j < J; ++j) { parts[j].id = ids[j]; parts[j].complexity = sc["complexity"][r][j].get<int>(); parts[j].usec = sc["usec"][r][j].get<int>(); order[j] = j; }
         std::sort(order.begin(), order.end(), [&](int a, int b) { return parts[a].complexity > parts[b].complexity; });
+        for (int j = 0; j < J; ++j) order[j] = ids[order[j]];
         wlog({{"e", "RoundBegin"}, {"round", r + 1}});
         world.barrier();
         json jm = json::array();
@@ -201,7 +206,12 @@ static void run_dispatch_nomaster(const json& sc, boost::mpi::communicator& worl
             pMPI::MPIWorker worker(world, ROOT);
             for (; !worker.is_finished();) {
                 worker.receive_order();
-                if (worker.is_working()) { parts[worker.current_job()].run(); worker.report_job_done(); }
+                if (worker.is_working()) {
+                    auto it = pos.find(worker.current_job());
+                    if (it != pos.end()) parts[it->second].run();
+                    else { CountingJob stray; stray.id = worker.current_job(); stray.complexity = 0; stray.usec = 0; stray.run(); }   // not a job of this round: recorded, the checks decide
+                    worker.report_job_done();
+                }
             }
         }
         world.barrier();
